@@ -77,3 +77,21 @@ Theorem C02_label_final_value : forall w r pre name post out,
       exists s, nth_error (r_scopes (o_final out)) (r_cur r1) = Some s /\
                 dict_get (s_labels s) name = Some (a_val a1).
 Proof. exact label_final_value. Qed.
+
+(** The model satisfies the very oracle the run-time check applies to the implementation's trace
+    (Oracle/Coreo.v, [STrace]): for every node list and start state, every label (and .incbin
+    start symbol) bound in the first pass has the value of the run address at which its node is
+    emitted and at which the next emitting node before any position move emits; every node is
+    emitted at its first-pass address.  No side condition. *)
+From A816 Require Import Oracle.Coreo Proofs.WriterProtocol Proofs.TraceOracle.
+Theorem C02_trace_oracle : forall w r ns o,
+  assemble_nodes w r ns = Ok o ->
+  exists r1 addrs tr, resolve_labels w r ns = Ok (r1, addrs) /\
+    model_trace w (emit_start r1) ns addrs = Ok (tr, r_pc (o_final o)) /\
+    spec_ok (trace_spec ns addrs tr) (OOk (o_blocks o, o_labels o)) = true.
+Proof. exact assemble_trace_oracle. Qed.
+Theorem C02_first_pass_visits : forall w r ns r1 addrs,
+  resolve_labels w r ns = Ok (r1, addrs) ->
+  length addrs = S (length ns) /\
+  label_visits w (set_cur_last r (r_cur r) 0) ns (r_reloc r) 0 = Ok (pass1_of ns addrs).
+Proof. exact first_pass_visits. Qed.
